@@ -136,7 +136,36 @@ theorem orphan_else_dropped (W : World) (f : Nat) (ctx : Ctx) (st : St) (tag : S
     (h5 : hasAttr attrs (S "v-if") = false)
     (h6 : (hasAttr attrs (S "v-else-if") || hasAttr attrs (S "v-else")) = true) :
     evalList W (f + 1) ctx st (.elem tag attrs kids :: rest) = evalList W f ctx st rest := by
-  simp [evalList, h1, h2, h5, h6]
+  simp [evalList, onceHereOf, h1, h2, h5, h6]
+
+/-- … also when the stray member carries `v-once`: it is dropped WITHOUT being marked as rendered, the state is untouched (repair of the
+    recorded finding: the v-once test used to come first and used the member's v-once up) -/
+theorem orphan_else_with_once_dropped_unmarked (W : World) (f : Nat) (ctx : Ctx) (st : St) (tag : Str) (attrs : List Attr) (kids rest : List Node)
+    (h2 : hasAttr attrs (S "v-pre") = false) (h5 : hasAttr attrs (S "v-if") = false)
+    (h6 : (hasAttr attrs (S "v-else-if") || hasAttr attrs (S "v-else")) = true) :
+    evalList W (f + 1) ctx st (.elem tag attrs kids :: rest) = evalList W f ctx st rest := by
+  have hh : onceHereOf attrs = false := by
+    simp only [onceHereOf, h5]
+    cases h7 : hasAttr attrs (S "v-else-if") <;> cases h8 : hasAttr attrs (S "v-else") <;> simp_all
+  simp [evalList, hh, h2, h5, h6]
+
+/-- THE HEAD OF A CHAIN THAT IS NOT RENDERED KEEPS ITS `v-once` (repair of the recorded finding): when the chain selects no member, the
+    siblings after the chain are evaluated in the state the head was reached in - nothing is marked, whatever the head carries -/
+theorem unselected_head_leaves_state (W : World) (f : Nat) (ctx : Ctx) (st : St) (tag : Str) (attrs : List Attr) (kids rest : List Node) (n : Nat)
+    (hpre : hasAttr attrs (S "v-pre") = false) (hfor : hasAttr attrs (S "v-for") = false) (hif : hasAttr attrs (S "v-if") = true)
+    (hsel : chainSelect (evalCondition W.P st.stack) (getAttr attrs (S "v-if")) rest = .ok (.none, n)) :
+    evalList W (f + 1) ctx st (.elem tag attrs kids :: rest) = evalList W f ctx st (rest.drop n) := by
+  have hh : onceHereOf attrs = false := by simp [onceHereOf, hpre, hif]
+  simp [evalList, hh, hpre, hfor, hif, hsel, bindE]
+
+/-- … and a head that IS selected but was already rendered in this render renders nothing, the rest of the chain is still consumed -/
+theorem selected_head_already_rendered (W : World) (f : Nat) (ctx : Ctx) (st : St) (tag : Str) (attrs : List Attr) (kids rest : List Node) (n : Nat)
+    (hpre : hasAttr attrs (S "v-pre") = false) (hfor : hasAttr attrs (S "v-for") = false) (hif : hasAttr attrs (S "v-if") = true)
+    (honce : hasAttr attrs (S "v-once") = true) (hseen : getAttr attrs (S "v-once-id") ∈ st.seen)
+    (hsel : chainSelect (evalCondition W.P st.stack) (getAttr attrs (S "v-if")) rest = .ok (.member 0, n)) :
+    evalList W (f + 1) ctx st (.elem tag attrs kids :: rest) = evalList W f ctx st (rest.drop n) := by
+  have hh : onceHereOf attrs = false := by simp [onceHereOf, hpre, hif]
+  simp [evalList, hh, hpre, hfor, hif, hsel, bindE, onceGate, honce, hseen]
 
 /-- (4b) … in particular when the member also carries `v-for` (fix: looped chain members): the loop is not run, so it can neither render its
     instances next to the branch that was chosen nor, by producing nothing, hand a following `v-else` to the for-else rule -/
